@@ -48,6 +48,11 @@ type End struct {
 
 	// OnRead, if set, is called (outside the lock) after each Read with the bytes returned.
 	OnRead func(n int)
+
+	// MaxWrite > 0 makes Write accept at most that many bytes per call (a short write without
+	// error, as a congested socket does); BeforeWrite is called before every Write (delay injection).
+	MaxWrite    int
+	BeforeWrite func(n int)
 }
 
 // Pipe returns the two ends of a new connection.
@@ -128,6 +133,15 @@ func (e *End) Write(p []byte) (int, error) {
 	if closed {
 		return 0, ErrClosed
 	}
+	if e.BeforeWrite != nil {
+		e.BeforeWrite(len(p))
+	}
+	short := false
+	if e.MaxWrite > 0 && len(p) > e.MaxWrite {
+		p = p[:e.MaxWrite]
+		short = true
+	}
+	_ = short
 	allowed := len(p)
 	var ferr error
 	if e.failWriteAt >= 0 && e.wroteTotal+int64(len(p)) > e.failWriteAt {
